@@ -62,7 +62,9 @@ func c13Check(c *Ctx, pname string, body func(t *rapid.T, r *Rec), input []byte,
 	c.R.Evals++
 	tb := NewTB("C13")
 	tb.Quiet = true
-	ref, _ := runWith(body, func(prop func(*rapid.T)) rapid.VerifResult { return rapid.VerifRunBuf(tb, wordsOfBytes(input), false, prop) })
+	ref, _ := runWith(body, func(prop func(*rapid.T)) rapid.VerifResult {
+		return rapid.VerifRunBuf(tb, wordsOfBytes(input), false, prop)
+	})
 	replay := map[string]any{"engine": "fuzz", "program": pname, "input_hex": fmt.Sprintf("%x", input), "how": how}
 	viol := func(clause, detail string) {
 		c.Violate(Violation{Sig: "C13 " + clause + " prog=" + pname, Detail: fmt.Sprintf("%s\ninput (%d bytes, %s): %x", detail, len(input), how, trunc(string(input), 80)), Replay: replay, Devs: devs})
